@@ -1,6 +1,7 @@
 import SdJwt.Exec.Wire
 import SdJwt.Impl.Parts
 import SdJwt.Impl.Flows
+import SdJwt.Impl.Issuer
 import SdJwt.Spec.RefVerify
 /-!
 Executable-only: the operations the correspondence harness can ask for, one JSON object per
@@ -166,6 +167,28 @@ def opFlow (req : J) : J :=
         | none => .null)]) r
   | e => mkObj [("error", S ("unknown entry " ++ e))]
 
+/-! ## issuer -/
+
+def opIssue (req : J) : J :=
+  let claims := (jget req "claims").getD .null
+  let paths := strs (jarr req "paths")
+  let discs := strs (jarr req "discs")
+  let alg := "sha-256"
+  let mk (i : Nat) (_ : Option String) (_ : J) : String :=
+    match discs[i]? with
+    | some d => b64Hash alg d
+    | none => "digest-" ++ toString i
+  let decoys : Option (List String) := match jget req "decoys" with
+    | some (.arr xs) => if xs.isEmpty then none else some (strs xs)
+    | _ => none
+  let cnf : Option J := match jget req "cnf" with
+    | some .null => none
+    | some j => some j
+    | none => none
+  outcomeJ (fun (p, srcs) => mkObj [("payload", p),
+      ("srcs", .arr (srcs.map fun (k, v) => .arr [match k with | some k => S k | none => .null, v]))])
+    (Impl.encode claims paths mk decoys cnf)
+
 def dispatch (req : J) : J :=
   match jstr req "op" with
   | "hash" => opHash req
@@ -173,6 +196,7 @@ def dispatch (req : J) : J :=
   | "restore" => opRestore req
   | "tree" => opTree req
   | "flow" => opFlow req
+  | "issue" => opIssue req
   | "ping" => mkObj [("pong", .bool true)]
   | op => mkObj [("error", S ("unknown op " ++ op))]
 
